@@ -92,9 +92,8 @@ Section HM2.
   Notation Seg := (Seg K V).
 
   (* ---- abstraction: the bindings in node order (= iteration order) *)
-  Definition abs_of (ns : list node) : list (K * V) :=
-    map (fun nd => (nkey nd, nval nd)) (filter nfilled ns).
-  Definition hm_abs (m : hmap) : list (K * V) := abs_of (hnodes K V m).
+  Notation abs_of := (abs_of K V).
+  Notation hm_abs := (hm_abs K V).
 
   Definition same_kvf (a b : node) : Prop := nkey a = nkey b /\ nval a = nval b /\ nfilled a = nfilled b.
   Definition kvf_eq (ns ns' : list node) : Prop :=
@@ -118,12 +117,12 @@ Section HM2.
     destruct (P 0 a eq_refl) as (b' & Hb & S1 & S2 & S3). cbn in Hb. inversion Hb; subst b'.
     assert (abs_of ns = abs_of ns') as E.
     { apply IH. split; [cbn in L; lia|]. intros i nd H. exact (P (S i) nd H). }
-    unfold abs_of in *. cbn [filter]. rewrite <- S3. destruct (nfilled a); cbn [map]; [rewrite S1, S2|]; congruence.
+    unfold Model.abs_of in *. cbn [filter]. rewrite <- S3. destruct (nfilled a); cbn [map]; [rewrite S1, S2|]; congruence.
   Qed.
 
   Lemma kvf_eq_filled_len : forall ns ns', kvf_eq ns ns' -> length (filter nfilled ns) = length (filter nfilled ns').
   Proof.
-    intros. pose proof (kvf_eq_abs _ _ H) as E. unfold abs_of in E.
+    intros. pose proof (kvf_eq_abs _ _ H) as E. unfold Model.abs_of in E.
     rewrite <- (map_length (fun nd => (nkey nd, nval nd))), E, map_length. reflexivity.
   Qed.
 
@@ -141,11 +140,11 @@ Section HM2.
   Proof. intros; repeat split. Qed.
 
   Lemma abs_of_app : forall a b, abs_of (a ++ b) = abs_of a ++ abs_of b.
-  Proof. intros. unfold abs_of. rewrite filter_app, map_app. reflexivity. Qed.
+  Proof. intros. unfold Model.abs_of. rewrite filter_app, map_app. reflexivity. Qed.
 
   Lemma abs_of_unfilled : forall ns, (forall nd, In nd ns -> nfilled nd = false) -> abs_of ns = [].
   Proof.
-    induction ns; intros H; [reflexivity|]. unfold abs_of in *. cbn [filter].
+    induction ns; intros H; [reflexivity|]. unfold Model.abs_of in *. cbn [filter].
     rewrite (H a (or_introl eq_refl)). apply IHns. intros; apply H; right; assumption.
   Qed.
 
